@@ -172,3 +172,4 @@ fn explore(focus: fn(Op) -> bool) {
 #[test] fn w__remove_from_nested_index__any() { explore(|o| matches!(o, Op::Del(..) | Op::DelT(..) | Op::Clear(..) | Op::Drop(..))); }
 #[test] fn w__remove_from_graph_index__any() { explore(|o| matches!(o, Op::Del(..) | Op::DelT(..) | Op::Clear(..) | Op::Drop(..))); }
 #[test] fn w__remove_from_spog__any() { explore(|o| matches!(o, Op::Del(..) | Op::DelT(..) | Op::Clear(..) | Op::Drop(..))); }
+#[test] fn w__DatasetIndex_query_named_graphs__any() { explore(|_| true); }
